@@ -327,4 +327,24 @@ WITNESSES = [
                  "def _prefixed_renames(expression, configured, splitter):\n    pairs = []\n    for symbol in expression.sympy.atoms(Symbol):\n"
                  "        parts = splitter(symbol.name)\n        if parts is not None:\n            pairs.append((symbol.name, configured + parts[1]))\n"
                  "    return pairs\n\n\n# init the TensorNames instance and overwrite the defaults with")]),
+    # the three registry look-ups share one helper (held-out seed C19-7 without its defect)
+    dict(id="c19-ok-lookup-helper", prop="C19", file=E, expect=None,
+         edits=[("    @cached_property\n    def order(self):\n",
+                 "    @cached_property\n    def intermediate(self):\n        from .intermediates import Intermediates\n\n"
+                 "        if not isinstance(self.base, SymbolicTensor):\n            return None\n"
+                 "        return Intermediates().available.get(self.longname(True), None)\n\n    @cached_property\n    def order(self):\n"),
+                ("            itmd_cls = Intermediates().available.get(self.longname(True), None)\n            if itmd_cls is not None:",
+                 "            if (itmd_cls := self.intermediate) is not None:"),
+                ("        itmd = Intermediates().available.get(self.longname(True), None)\n        if itmd is None:\n            logger.warning(",
+                 "        itmd = self.intermediate\n        if itmd is None:\n            logger.warning(")]),
+    # ... and the helper forgets to ask for default names (seed C19-7)
+    dict(id="c19-lookup-helper-configured", prop="C19", file=E, expect="R19c",
+         edits=[("    @cached_property\n    def order(self):\n",
+                 "    @cached_property\n    def intermediate(self):\n        from .intermediates import Intermediates\n\n"
+                 "        if not isinstance(self.base, SymbolicTensor):\n            return None\n"
+                 "        return Intermediates().available.get(self.longname(), None)\n\n    @cached_property\n    def order(self):\n"),
+                ("            itmd_cls = Intermediates().available.get(self.longname(True), None)\n            if itmd_cls is not None:",
+                 "            if (itmd_cls := self.intermediate) is not None:"),
+                ("        itmd = Intermediates().available.get(self.longname(True), None)\n        if itmd is None:\n            logger.warning(",
+                 "        itmd = self.intermediate\n        if itmd is None:\n            logger.warning(")]),
 ]
